@@ -1393,6 +1393,29 @@ func (g *gen) modifierStmt() {
 	if v.ClosAsg {
 		g.flag("closure_assigns_narrowed")
 	}
+	if g.chance(35, "collmodif") {
+		// if / if-else modifier as an element of a list, tuple or set literal: the element expression is
+		// checked under the truthy assumption, the else-expression under the falsy one
+		s := g.apply(c.thenT)
+		p1 := g.probe(v.Name, "narrowed")
+		restore(s)
+		open, close := "[", "]"
+		switch g.pick(3, "collkind") {
+		case 1:
+			open = "%["
+		case 2:
+			open = "^["
+		}
+		if g.chance(70, "collelse") {
+			s = g.apply(c.elT)
+			p2 := g.probe(v.Name, "narrowed")
+			restore(s)
+			g.line("%s%s if %s else %s%s", open, p1, c.text, p2, close)
+		} else {
+			g.line("%s%s if %s%s", open, p1, c.text, close)
+		}
+		return
+	}
 	if g.chance(50, "modif") {
 		s := g.apply(c.thenT)
 		p := g.probe(v.Name, "narrowed")
